@@ -136,3 +136,63 @@ contract('C09/ensemble.__update_allSolvers/in-process-map', ['C09', 'C07'], ENS 
     lambda h: _update_all(h, False))
 contract('C09/ensemble.__update_allSolvers/copying-map', ['C09', 'C07'], ENS + '.__update_allSolvers', native=False)(
     lambda h: _update_all(h, True))
+
+
+# ---------------------------------------------------------------------------- lattice starting points / gridpts
+import itertools as _it
+
+
+def _layouts():
+    out = []
+    for d in (1, 2, 3):
+        for l in _it.product((1, 2, 3, 4), repeat=d):
+            p = 1
+            for v in l:
+                p *= v
+            if p <= 12:
+                out.append(l)
+    return out
+
+
+@contract('C09/gridpts', ['C09'], 'mystic/math/grid.py::gridpts', samples=150)
+def gridpts(h):
+    """per bin layout (every layout with <= 3 dimensions, <= 4 bins each, <= 12 points) and for ALL bin values: the result
+    is the full Cartesian product of the bins, every combination exactly once"""
+    layout = h.choice('bins_per_dimension', _layouts())
+    bins = [h.vec('bin%d' % i, n) for i, n in enumerate(layout)]
+    q = h.clist(bins)
+    pts = h.call(h.get('mystic/math/grid.py::gridpts'), q)
+    combos = list(_it.product(*[range(n) for n in layout]))
+    h.check('as-many-points-as-the-product-of-the-bins', 'len(pts) == n', pts=pts, n=len(combos))
+    # each combination occurs at exactly one position: the points are, in documented order, the product with the first
+    # dimension varying slowest
+    conj = []
+    for k, idx in enumerate(combos):
+        conj.append('len(pts[%d]) == %d' % (k, len(layout)))
+        conj += ['pts[%d][%d] == q[%d][%d]' % (k, d, d, j) for d, j in enumerate(idx)]
+    h.check('full-cartesian-product-each-combination-once', ' and '.join(conj), pts=pts, q=q)
+
+
+@contract('C09/LatticeSolver._InitialPoints', ['C09', 'C02'], 'mystic/ensemble.py::LatticeSolver._InitialPoints', samples=150)
+def lattice_points(h):
+    """per bin layout, for ALL strict ranges lower <= upper: one starting point per grid cell, at the centre of its cell
+    (hence inside the strict ranges)"""
+    layout = h.choice('nbins', [l for l in _layouts() if len(l) <= 2] + [(2, 1, 2), (1, 1, 3)])
+    D = len(layout)
+    lo, up = h.vec('lower', D), h.vec('upper', D)
+    h.assume(' and '.join('lo[%d] <= up[%d]' % (i, i) for i in range(D)), lo=lo, up=up)
+    nd = h.choice('ranges_as', ['list', 'array'])
+    s = h.obj('mystic/ensemble.py::LatticeSolver', nDim=D, _nbins=tuple(layout), _npts=None, _dist=None,
+              _strictMin=h.clist(list(h.st.heap[lo]) if h.is_sym() else list(lo), nd=(nd == 'array')),
+              _strictMax=h.clist(list(h.st.heap[up]) if h.is_sym() else list(up), nd=(nd == 'array')),
+              _defaultMin=h.clist([-1e3]), _defaultMax=h.clist([1e3]))
+    pts = h.call(h.getattr(s, '_InitialPoints'))
+    combos = list(_it.product(*[range(n) for n in layout]))
+    h.check('one-member-per-cell', 'len(pts) == n', pts=pts, n=len(combos))
+    conj = []
+    for k, idx in enumerate(combos):
+        for d, j in enumerate(idx):
+            w = '(up[%d] - lo[%d]) / %d' % (d, d, layout[d])
+            conj.append('pts[%d][%d] == lo[%d] + (%d + 0.5) * %s' % (k, d, d, j, w))
+            conj.append('lo[%d] <= pts[%d][%d] and pts[%d][%d] <= up[%d]' % (d, k, d, k, d, d))
+    h.check('each-member-starts-at-the-centre-of-its-own-cell-inside-the-ranges', ' and '.join(conj), pts=pts, lo=lo, up=up)
